@@ -191,7 +191,8 @@ Theorem read_message_guards_from_source c st bs h rest :
   /\ (g = 0 -> is_data_op (get_opcode (h_b0 h)) = true
                /\ ((h_len h <? 0) || (h_len h >? r_limit c))%Z = false
                /\ (get_rsv2 (h_b0 h) || get_rsv3 (h_b0 h) || (get_rsv1 (h_b0 h) && negb (r_pmd c))) = false
-               /\ ((r_server c && negb (get_mask (h_b1 h))) || (negb (r_server c) && get_mask (h_b1 h))) = false)
+               /\ ((r_server c && negb (get_mask (h_b1 h))) || (negb (r_server c) && get_mask (h_b1 h))) = false
+               /\ (r_pmd c && get_rsv1 (h_b0 h) && (negb (is_data_op (get_opcode (h_b0 h))) || (get_opcode (h_b0 h) =? 0)%N)) = false)
   /\ (g = 1009 \/ g = 1002 \/ g = -1 \/ g = 0).
 Proof.
   intros Hp g. subst g. unfold gen_guards, gf_gws_Conn_readMessage, Reader.read_message. rewrite Hp.
@@ -225,4 +226,58 @@ Proof.
     destruct (125 <? get_lencode (h_b1 h))%N; split; auto; intro; try reflexivity; discriminate.
   - split; auto.
 Qed.
+
+(* ---- the rest of readMessage: after the payload has been read and unmasked, the model goes through the conditions of
+   the source's remaining top-level `if` statements (#9 .. #14 of readMessage, regenerated as gf_..._cond9 .. cond14), in
+   the source's order ---- *)
+Notation emit_message := (Reader.emit_message utf8_valid inflate W wdict wwrite).
+
+Definition reassemble_src (c : rcfg) (st : rstate W) (op : N) (fin compressed : bool) (p rest : list N) : step W :=
+  if gf_gws_Conn_readMessage_cond9 (cf_init W st) (Z.of_N op) then SStop W [] (OFail W 1002%N) else
+  if gf_gws_Conn_readMessage_cond10 fin (Z.of_N op) then emit_message c st op p compressed rest else
+  let st1 := if gf_gws_Conn_readMessage_cond11 fin (Z.of_N op)
+             then {| cf_init := true; cf_comp := compressed; cf_op := op; cf_buf := []; r_dps := r_dps W st |}
+             else st in
+  if gf_gws_Conn_readMessage_cond12 (cf_init W st1) then SStop W [] (OFail W 1002%N) else
+  let buf := cf_buf W st1 ++ p in
+  let st2 := {| cf_init := cf_init W st1; cf_comp := cf_comp W st1; cf_op := cf_op W st1; cf_buf := buf; r_dps := r_dps W st1 |} in
+  if gf_gws_Conn_readMessage_cond13 (r_limit c) (Z.of_nat (length buf)) then SStop W [] (OFail W 1009%N) else
+  if gf_gws_Conn_readMessage_cond14 fin then SCont W [] st2 rest else
+  emit_message c (cf_reset W st2) (cf_op W st2) buf (cf_comp W st2) rest.
+
+Lemma eqb0 op : (Z.of_N op =? 0)%Z = (op =? 0)%N.
+Proof. lia. Qed.
+
+Theorem read_message_tail_from_source c st bs h rest raw rest' p :
+  parse_header bs = POk h rest -> gen_guards c h = 0 ->
+  (Pool.pool_cap (h_len h + 9) <? h_len h)%Z = false ->
+  read_n (Z.to_nat (h_len h)) rest = inl (Some (raw, rest')) ->
+  unmask (get_mask (h_b1 h)) (h_key h) raw = Some p ->
+  read_message c st bs
+  = reassemble_src c st (get_opcode (h_b0 h)) (get_fin (h_b0 h)) (r_pmd c && get_rsv1 (h_b0 h)) p rest'.
+Proof.
+  intros Hp Hg Hpool Hread Hunmask.
+  destruct (read_message_guards_from_source c st bs h rest Hp) as (_ & _ & G0 & _).
+  destruct (G0 Hg) as (Hdata & H2 & H3 & H4 & H5).
+  unfold Reader.read_message. rewrite Hp, H2, H3, H4, H5, Hdata. cbn [negb]. rewrite Hpool, Hread, Hunmask.
+  unfold reassemble_src, gf_gws_Conn_readMessage_cond9, gf_gws_Conn_readMessage_cond10, gf_gws_Conn_readMessage_cond11,
+    gf_gws_Conn_readMessage_cond12, gf_gws_Conn_readMessage_cond13, gf_gws_Conn_readMessage_cond14.
+  rewrite eqb0. change sc_protocol with 1002%N. change sc_too_large with 1009%N. reflexivity.
+Qed.
+
+(* the conditions regenerated from the source are the ones the prefix ladder and the tail above use: 14 in all *)
+Lemma read_message_conditions_counted : gf_gws_Conn_readMessage_nconds = 14%nat.
+Proof. reflexivity. Qed.
 End ReaderGuards.
+
+(* ---- genFrame: the gates in front of the frame construction ---- *)
+Lemma gen_genFrame_conditions_are opcode n limit threshold compress server check_ok :
+  gf_gws_Conn_genFrame_nconds = 4%nat
+  /\ gf_gws_Conn_genFrame_cond1 check_ok (Z.of_N opcode) = ((opcode =? 1)%N && negb check_ok)
+  /\ gf_gws_Conn_genFrame_cond2 limit n = (n >? limit)%Z
+  /\ gf_gws_Conn_genFrame_cond3 threshold compress n (Z.of_N opcode) = (compress && is_data opcode && (n >=? threshold)%Z)
+  /\ gf_gws_Conn_genFrame_cond4 server = negb server.
+Proof.
+  unfold gf_gws_Conn_genFrame_cond1, gf_gws_Conn_genFrame_cond2, gf_gws_Conn_genFrame_cond3, gf_gws_Conn_genFrame_cond4.
+  rewrite gen_isDataFrame_is. repeat split. f_equal. lia.
+Qed.
